@@ -168,6 +168,7 @@ func genCase(t *rapid.T) Case {
 		sp.Limit = rapid.SampledFrom([]int{0, 1, 2, 3, 7, 100}).Draw(t, fmt.Sprintf("lim%d", i))
 		c.Specs = append(c.Specs, sp)
 	}
+	c.H.Rename = gen.MaybeRename(t, c.H.Schema)
 	return c
 }
 
